@@ -4,6 +4,7 @@ import (
 	"flag"
 	"fmt"
 	"os"
+	"runtime/pprof"
 	"strconv"
 	"strings"
 	"syscall"
@@ -75,6 +76,11 @@ func CheckBubble(tt *testing.T, property string, prop func(*T)) {
 		seed = 1
 	}
 	name := tt.Name()
+	if pf := os.Getenv("VT_CPUPROF"); pf != "" {
+		if f, err := os.Create(pf); err == nil {
+			pprof.StartCPUProfile(f)
+		}
+	}
 	synctest.Test(tt, func(tt *testing.T) {
 		time.Sleep(time.Until(Base))
 		st := NewStats(property, name)
@@ -147,6 +153,7 @@ func CheckBubble(tt *testing.T, property string, prop func(*T)) {
 			}
 		}
 		st.Write()
+		pprof.StopCPUProfile()
 		os.Stdout.Sync()
 		os.Stderr.Sync()
 		syscall.Exit(code)
